@@ -2436,6 +2436,33 @@ pub fn exec_foreign(case: &ForeignCase, tally: &mut Tally) -> Result<(), Failure
                 ));
             }
         }
+        // What a receive buffer shorter than the datagram would hand over: the same foreign SYN cut
+        // inside its trailing cluster id (also right where the rest equals the own id). Whatever
+        // the decoder makes of it, the node must not take it for a SYN of its own cluster.
+        {
+            let mut digest: Vec<WNodeDigest> = members.iter().map(|m| WNodeDigest { id: m.clone(), heartbeat: 5_000, last_gc: 0, max_version: 0 }).collect();
+            sort_digest_real_order(&mut digest);
+            let (bytes, _) = encode_msg(&WMsg::Syn { cluster_id: foreign.clone(), digest }, Blocking::Canonical);
+            let mut cuts: Vec<usize> = vec![1, 2, foreign.len() / 2];
+            if foreign.len() > own.len() && foreign.starts_with(own.as_str()) {
+                cuts.push(foreign.len() - own.len());
+            }
+            for cut in cuts {
+                if cut == 0 || cut >= bytes.len() {
+                    continue;
+                }
+                let Ok(Ok((msg, _))) = guard(|| real_decode(&bytes[..bytes.len() - cut])) else { continue };
+                let reply = match guard(|| node.verif_process_message(msg)) {
+                    Ok(r) => r,
+                    Err(p) => return Err(fail(mon, &p.signature(), format!("processing a truncated foreign SYN panicked: {}", p.describe()))),
+                };
+                let rejected = matches!(reply.as_ref().map(chitchat::verif::verif_describe), Some(chitchat::verif::VerifMessage::BadCluster));
+                if !rejected || node.node_states().len() != before_members {
+                    return Err(fail(mon, "truncated-foreign-syn-accepted", format!("own cluster id of {} bytes, foreign id of {} bytes: the foreign SYN cut {cut} bytes before its end decoded and was {}; the node now knows {} members (was {before_members})", own.len(), foreign.len(), if rejected { "rejected" } else { "NOT answered with a rejection" }, node.node_states().len())));
+                }
+                tally.label("truncated_foreign_syn_decoded");
+            }
+        }
         node.verif_update_nodes_liveness();
         if node.live_nodes().count() != 1 || node.dead_nodes().count() != 0 {
             return Err(fail(mon, "foreign-syn-changed-liveness", format!("after {count} foreign SYNs the node lists {} live and {} dead members", node.live_nodes().count(), node.dead_nodes().count())));
